@@ -346,9 +346,51 @@ func (ex *Exec) appendOp(fr *Frame, st *State, cc *ssa.CallCommon, args []Val, p
 	base := ex.def("apb", sInt, ite(fits, s.L[0], nb))
 	off := ex.def("apo", bv64, ite(fits, s.L[1], bvLit(0, 64)))
 	cp := ex.def("apc", bv64, ite(fits, s.L[3], ncap))
-	if _, ok := isPlainStruct(E); ok {
-		ex.note("append to struct slice: element fields of the result are not tracked")
-		ex.havocKeys(st, ex.structKeys(E))
+	if S, ok := isPlainStruct(E); ok {
+		flat := !fromString
+		for i := 0; i < S.NumFields(); i++ {
+			if _, nested := isPlainStruct(S.Field(i).Type()); nested {
+				flat = false
+			}
+		}
+		if tc := ex.C.Types[typeContractKey(E)]; tc != nil && len(tc.Ghosts) > 0 {
+			flat = false
+		}
+		if !flat {
+			ex.note("append to struct slice: element fields of the result are not tracked")
+			ex.havocKeys(st, ex.structKeys(E))
+			return Val{T: s.T, L: []string{base, off, newLen, cp}}
+		}
+		// elements are objects elem(base, index); every field array is rewritten for the element objects of the
+		// result's backing store: old elements copied, new elements taken from the appended slice
+		ex.inQuant++
+		kind := ex.declFun("refkind", []string{sInt}, sInt)
+		pb := ex.declFun("elemb|"+typeKey(E), []string{sInt}, sInt)
+		pi := ex.declFun("elemi|"+typeKey(E), []string{sInt}, bv64)
+		id := fmt.Sprint(ex.typeTag("elem|" + typeKey(E)))
+		r := "br"
+		rel := app("bvsub", app(pi, r), off)
+		// (an index below off makes rel wrap around to a huge value, which is not below any length)
+		mine := and(eq(app(kind, r), id), eq(app(pb, r), base))
+		oldEl := ex.elemRef(E, s.L[0], app("bvadd", s.L[1], rel))
+		newEl := ex.elemRef(E, add.L[0], app("bvadd", add.L[1], app("bvsub", rel, s.L[2])))
+		ex.inQuant--
+		for i := 0; i < S.NumFields(); i++ {
+			f := S.Field(i)
+			for _, l := range flatten(f.Type()) {
+				k := fieldKey(E, f.Name(), l.Path)
+				srt := sArr(sInt, l.Sort)
+				a := ex.heapGet(st, k, srt)
+				body := ite(and(mine, app("bvult", rel, s.L[2])), sel(a, oldEl),
+					ite(and(mine, app("bvult", rel, newLen)), sel(a, newEl), sel(a, r)))
+				ex.ctr++
+				n := quote(fmt.Sprintf("apps!%d", ex.ctr))
+				z3 := "(define-fun " + n + " () " + srt + " (lambda ((br Int)) " + body + "))"
+				alt := "(declare-const " + n + " " + srt + ")\n(assert (forall ((br Int)) (! (= (select " + n + " br) " + body + ") :pattern ((select " + n + " br)))))"
+				ex.emitAlt(z3, alt)
+				ex.heapSet(st, k, srt, n)
+			}
+		}
 		return Val{T: s.T, L: []string{base, off, newLen, cp}}
 	}
 	ls := flatten(E)
